@@ -1,0 +1,45 @@
+//go:build verif
+
+package keyspec
+
+// Contracts for the verification machinery in /verif (build tag "verif").
+// The specifications are transcribed from Redis' own key extraction (src/db.c georadiusGetKeys,
+// sortGetKeys), which is what a cluster routes by and what the target executes - not from the
+// code under test.
+
+// SpecEqualFold is strings.EqualFold (abstract).
+func SpecEqualFold(a, b string) bool { panic("abstract spec function") }
+
+//@ spec SpecEqualFold abstract
+
+//@ func strings.EqualFold(a, b) (r)
+//@   trusted library contract
+//@   ensures spec: r == SpecEqualFold(a, b)
+
+// ---- GEORADIUS / GEORADIUSBYMEMBER ... [STORE key] [STOREDIST key] (C18, C10) ------------------
+// georadiusGetKeys looks for the options from the sixth word of the command on (argument index
+// 4 here: a member or a unit can be called "store"), each takes the following word as its key,
+// and the LAST one is the key Redis writes.
+//@ pred storeTok(s): SpecEqualFold(s, "store") || SpecEqualFold(s, "storedist")
+//@ func geoRadiusStoreExtractor
+//@   arith int
+//@   properties C18 C10
+//@   replay keyspec_storeOptions
+//@   modifies nothing
+//@   ensures the_destination_follows_a_store_option_among_the_options: result != nil ==> len(result) == 2 && result[0] == 0 && 5 <= result[1] && result[1] < len(args) && storeTok(args[result[1] - 1])
+//@   ensures the_last_store_option_wins: result != nil ==> (forall i int :: result[1] < i && i + 1 < len(args) ==> !storeTok(args[i]))
+//@   ensures no_store_option_no_second_key: result == nil ==> (forall i int :: 4 <= i && i + 1 < len(args) ==> !storeTok(args[i]))
+
+// ---- SORT key [BY p] [LIMIT o c] [GET p ...] [ASC|DESC] [ALPHA] [STORE dst] (C18, C10) ---------
+// sortGetKeys: BY and GET take one word each (which is never a key of the command, whatever it
+// says), STORE takes the destination, the LAST STORE wins. The sorted key and the destination are
+// at known positions whatever patterns BY / GET name.
+//@ pred takesWord(s): SpecEqualFold(s, "by") || SpecEqualFold(s, "get")
+//@ func sortExtractor
+//@   arith int
+//@   properties C18 C10
+//@   replay keyspec_storeOptions
+//@   modifies nothing
+//@   ensures the_destination_follows_a_store_option: result != nil ==> len(result) == 2 && result[0] == 0 && 2 <= result[1] && result[1] < len(args) && SpecEqualFold(args[result[1] - 1], "store")
+//@   ensures the_last_store_option_wins: result != nil ==> (forall i int :: result[1] < i && i + 1 < len(args) && SpecEqualFold(args[i], "store") ==> takesWord(args[i - 1]))
+//@   ensures patterns_do_not_hide_the_destination: result == nil ==> (forall i int :: 1 <= i && i + 1 < len(args) && SpecEqualFold(args[i], "store") ==> takesWord(args[i - 1]))
